@@ -134,6 +134,43 @@ class C28TBag(TymeDom):
 class C28TIce(IceTymeDom):
     leaf: C28TPoint = None
     v: Any = None
+
+# subclasses that ADD fields to an already namified class (hio's Bag / IceBag / Can and the TymeDom subclass
+# above), with and without re-applying @namify, with and without @registerify, and a holder that nests one
+from hio.base.hier.bagging import Bag, IceBag
+from hio.base.hier.canning import Can
+
+@registerify
+@dataclass
+class C28LBag(Bag):
+    label: Any = None
+    meta: Any = None
+
+@namify
+@registerify
+@dataclass
+class C28NBag(Bag):
+    label: Any = None
+    meta: Any = None
+
+@dataclass(frozen=True)
+class C28LIce(IceBag):
+    label: Any = None
+
+@registerify
+@dataclass
+class C28TBag2(C28TBag):
+    extra: Any = None
+
+@registerify
+@dataclass
+class C28Holder(RegDom):
+    bag: C28LBag = None
+    v: Any = None
+
+@dataclass
+class C28LCan(Can):
+    label: Any = None
 '''
 # class number -> (name stem, [(field, dataclass number or None)])
 SCHEMA = []
@@ -153,8 +190,16 @@ SCHEMA += [("TPoint", [("a", None), ("b", None)]),
            ("TIce", [("leaf", 12), ("v", None)]),
            ("Bag", [("value", None)]),
            ("IceBag", [("value", None)])]
+# 17..22: subclasses adding fields to namified classes (17 not re-namified, 18 re-namified, 19 frozen and neither
+# namified nor registered, 20 extends the TymeDom subclass 13, 21 holds a 17, 22 extends Can)
+SCHEMA += [("LBag", [("value", None), ("label", None), ("meta", None)]),
+           ("NBag", [("value", None), ("label", None), ("meta", None)]),
+           ("LIce", [("value", None), ("label", None)]),
+           ("TBag2", [("leaf", 12), ("v", None), ("extra", None)]),
+           ("Holder", [("bag", 17), ("v", None)]),
+           ("LCan", [("value", None), ("label", None)])]
 NCLS = len(SCHEMA)
-FROZEN = {8, 9, 10, 11, 14, 16}
+FROZEN = {8, 9, 10, 11, 14, 16, 19}
 _classes = None
 
 
@@ -178,6 +223,7 @@ def classes():
         out += [m.C28TPoint, m.C28TBag, m.C28TIce]
         from hio.base.hier.bagging import Bag, IceBag
         out += [Bag, IceBag]
+        out += [m.C28LBag, m.C28NBag, m.C28LIce, m.C28TBag2, m.C28Holder, m.C28LCan]
         _classes = out
     return _classes
 
@@ -417,6 +463,13 @@ def directed():
             {"obj": obj(13, leaf=tp, v=["l", []]), "mut": [[["f", "leaf"]], "attr", "a", ["i", 6]]},
             {"obj": obj(14, leaf=tp, v=["l", []]), "mut": [[["f", "v"]], "append", ["i", 6]]}]
     out += directed_seqs()
+    # subclasses adding fields to namified classes, top level and nested
+    lb = obj(17, value=["i", 5], label=["s", "five"], meta=["d", [["k", ["i", 1]]]])
+    out += [{"obj": lb}, {"obj": obj(18, value=["i", 5], label=["s", "five"], meta=["l", [["i", 1]]])},
+            {"obj": obj(19, value=["l", [["i", 1]]], label=["s", "x"])},
+            {"obj": obj(20, leaf=obj(12, a=["i", 1]), v=["i", 2], extra=["s", "more"])},
+            {"obj": obj(21, bag=lb, v=["n"])}, {"obj": obj(22, value=["i", 1], label=["s", "can"])},
+            {"obj": lb, "mut": [[["f", "meta"]], "setkey", "new", ["i", 2]]}]
     leaf = obj(4, a=["i", 5], b=["s", "é"])
     for early in ("absent", "null", "control"):
         out.append({"obj": obj(5, leaf=leaf, v=["i", 2]), "early": early})
@@ -506,7 +559,7 @@ def mutation_cases(rng, k):
 
 
 def rand_typed(rng):
-    c = rng.choice([0, 1, 2, 4, 5, 6, 8, 9, 10, 12, 13, 14, 15, 16])
+    c = rng.choice([0, 1, 2, 4, 5, 6, 8, 9, 10, 12, 13, 14, 15, 16, 17, 18, 19, 20, 21, 22])
     return rand_obj(rng, c, 0.0, 0.0)
 
 
